@@ -79,12 +79,54 @@ DEFAULT_PAY = {'i': 100, 'j': -200, 'm': 5, 'n': 5, 'b': 1, 'v': 77, 'h': 0x3E, 
                'eol': '\r\n', 'lead': ''}
 
 
+# ----------------------------------------------------------------------------------------------
+# the "serial I/O exceptions" of the statement: every class a pyserial port can raise from write()/readline().
+# The model has one outcome for all of them (raiseSerial); the implementation must contain every class.
+# ----------------------------------------------------------------------------------------------
+EXC_KEYS = ('serial', 'notopen', 'oserror', 'ioerror')
+WRITE_CHARS = {'x': 'serial', 'p': 'notopen', 'e': 'oserror', 'i': 'ioerror'}      # 'o' = the write succeeds
+WRITE_CHAR_OF = {v: k for k, v in WRITE_CHARS.items()}
+
+
+def make_exc(key, what):
+    import errno
+    import serial as real_serial
+    if key == 'notopen':
+        return real_serial.serialutil.PortNotOpenError()
+    if key == 'oserror':
+        return OSError(errno.EIO, 'Input/output error (' + what + ')')
+    if key == 'ioerror':
+        return IOError(errno.ENXIO, 'Device not configured (' + what + ')')
+    return real_serial.SerialException('fake ' + what + ' failure')
+
+
+class Raised:
+    """concrete outcome of a read that raised; `key` names the exception class"""
+    __slots__ = ('key',)
+
+    def __init__(self, key='serial'):
+        self.key = key
+
+    def __repr__(self):
+        return f'<raise {self.key}>'
+
+    def __eq__(self, other):
+        return isinstance(other, Raised) and other.key == self.key
+
+    def __hash__(self):
+        return hash(('Raised', self.key))
+
+
+def is_raise(o):
+    return not isinstance(o, str)
+
+
 def render_event(ev, pending):
     """concrete outcome of a read event given the pending (last written, trimmed) request:
     a str (the raw line) or 'X' (raise)"""
     kind = ev[0]
     if kind == 'raise':
-        return None
+        return Raised(ev[1] if len(ev) > 1 else 'serial')
     if kind == 'line':
         return ev[1]
     if kind == 'empty':
@@ -116,7 +158,9 @@ class Player:
         self.writes = list(writes)        # 'o' / 'x'
         self.pending = ''                 # last request handed to write (trimmed of the final CR)
         self.written = []                 # every text handed to write (str), including raised ones
-        self.read_log = []                # concrete outcomes of reads so far: str or None (= raised)
+        self.read_log = []                # concrete outcomes of reads so far: str or Raised
+        self.obj = None                   # the object under test (to see err / port at the moment of each write)
+        self.in_connect = False           # connect()'s handshake only contains SerialException (C15's domain)
         self.nreads = 0
         self.nwrites = 0
         self.closed = 0
@@ -141,10 +185,15 @@ class FakePort:
         p.nwrites += 1
         p.pending = text[:-1] if text.endswith('\r') else text
         o = p.writes.pop(0) if p.writes else 'o'
+        if o != 'o' and p.in_connect:
+            o = 'x'
         p.writes_done = tuple(p.writes_done) + (o,)
-        p.events.append(('w', text, o == 'o'))
-        if o == 'x':
-            raise self.exc('fake write failure')
+        obj = p.obj
+        # ('w', text, ok, err already recorded?, port already None?, exception class)
+        p.events.append(('w', text, o == 'o', obj is not None and obj.err is not None,
+                         obj is not None and obj.port is None, WRITE_CHARS.get(o)))
+        if o != 'o':
+            raise make_exc(WRITE_CHARS[o], 'write')
         return len(data)
 
     def readline(self):
@@ -154,10 +203,12 @@ class FakePort:
             out = render_event(p.reads.pop(0), p.pending)
         else:
             out = ''
+        if is_raise(out) and p.in_connect:
+            out = Raised('serial')
         p.read_log.append(out)
         p.events.append(('r', out))
-        if out is None:
-            raise self.exc('fake read failure')
+        if is_raise(out):
+            raise make_exc(out.key, 'read')
         return out.encode('ascii')
 
     def close(self):
@@ -252,6 +303,7 @@ def run_history(state, reads, writes, calls):
 
     player = Player(reads, writes)
     obj = ebb3_motion.EBBMotionWrap()
+    player.obj = obj
     if state.port:
         obj.port = FakePort(player, real_serial.SerialException)
     obj.err = state.err
@@ -280,6 +332,7 @@ def run_history(state, reads, writes, calls):
                     ebb3_serial.serial = shim
                     ebb3_serial.comports = (lambda f=found: [] if f is None else [(f, 'EiBotBoard', 'USB VID:PID=04D8:FD92')])
                     ebb3_serial.find_named = (lambda n, f=found: f)
+                    player.in_connect = True
                     ret = obj.connect(given, caller)
                 elif name == 'find_first':
                     found, = args
@@ -290,6 +343,7 @@ def run_history(state, reads, writes, calls):
             except Exception as ex:  # observed, compared with the model, judged by the oracle
                 exc = type(ex).__name__
             finally:
+                player.in_connect = False
                 ebb3_serial.serial, ebb3_serial.comports, ebb3_serial.find_named = saved
             records.append({
                 'call': (name, args), 'ret': ret, 'res': ('X' + exc) if exc else ('V' + canon(ret)), 'exc': exc,
@@ -310,8 +364,8 @@ def record_tokens(r):
 
 
 def model_line(state, creads, cwrites, calls):
-    rd = '.' if not creads else ';'.join('X' if o is None else 'L' + enc_str(o) for o in creads)
-    wr = '.' if not cwrites else ''.join(cwrites)
+    rd = '.' if not creads else ';'.join('X' if is_raise(o) else 'L' + enc_str(o) for o in creads)
+    wr = '.' if not cwrites else ''.join('o' if c == 'o' else 'x' for c in cwrites)    # one raise outcome in the model
     return ' '.join(['ebb3', 'run'] + state.tokens() + [rd, wr] + [enc_call(c) for c in calls])
 
 
@@ -321,7 +375,7 @@ def split_model_answer(ans):
 
 def describe(state, creads, cwrites, calls):
     return {'state': state.as_dict(),
-            'reads': ['<raise>' if o is None else o for o in creads],
+            'reads': [repr(o) if is_raise(o) else o for o in creads],
             'writes': ''.join(cwrites),
             'calls': [[n] + [repr(a) for a in args] for n, args in calls]}
 
@@ -373,7 +427,7 @@ def arg_classes():
         'var_read': [(3,), (0,), (31,)],
         'var_write_int32': [(v, 3) for v in I32[:5]] + [(I32[6], 0), (I32[7], 28), (I32[8], 10)],
         'var_read_int32': [(3,), (0,), (28,)],
-        'timed_pause': [(1600,), (750,), (751,), (1,), (0,), (-5,), (1500,)],
+        'timed_pause': [(1600,), (750,), (751,), (1,), (0,), (-5,), (1500,), (2251,), (3100,)],
         'xy_move': [(1, 2, 3), (0, 0, 0), (-5, 7, 100)],
         'abs_move': [(100, 0, 5), (100, None, None), (100, 3, None), (0, 0, 0)],
         'motors_disable': [()],
@@ -443,7 +497,7 @@ def rand_reads(rng, n, fault_rate=0.25):
             if k == 'blank':
                 evs.append(('line', rng.choice(['\r\n', ' ', '\n', '\t\r\n'])))
             elif k == 'raise':
-                evs.append(('raise',))
+                evs.append(('raise', rng.choice(EXC_KEYS)))
             elif k == 'empty':
                 evs.extend([('empty',)] * rng.choice([1, 1, 2, 5]))
             else:
@@ -465,13 +519,15 @@ def jsonable(sc, creads, cwrites):
     """a replayable description of a (concrete) scenario"""
     return {'state': {'port': sc.state.port, 'err': sc.state.err, 'version': sc.state.version, 'name': sc.state.name,
                       'caller': sc.state.caller, 'port_name': sc.state.port_name},
-            'reads': list(creads), 'writes': ''.join(cwrites),
+            'reads': [(None if o.key == 'serial' else {'raise': o.key}) if is_raise(o) else o for o in creads],
+            'writes': ''.join(cwrites),
             'calls': [[n, list(a)] for n, a in sc.calls], 'tag': sc.tag}
 
 
 def from_json(d):
     st = State(**d['state'])
-    reads = [('raise',) if o is None else ('line', o) for o in d['reads']]
+    reads = [('raise', 'serial') if o is None else ('raise', o['raise']) if isinstance(o, dict) else ('line', o)
+             for o in d['reads']]
     calls = [(n, tuple(a)) for n, a in d['calls']]
     return Scenario(st, reads, list(d['writes']), calls, d.get('tag', 'replay'))
 
@@ -490,8 +546,12 @@ def fault_kinds():
         'wrong2': [('wrong', dict(DEFAULT_PAY, m=1))],
         'wrong3': [('wrong', dict(DEFAULT_PAY, m=5))],
         'wrong4': [('wrong', dict(DEFAULT_PAY, m=3))],
-        'raise': [('raise',)],
-        'late-raise': [('empty',)] * 3 + [('raise',)],
+        'raise': [('raise', 'serial')],
+        'raise-notopen': [('raise', 'notopen')],
+        'raise-oserror': [('raise', 'oserror')],
+        'raise-ioerror': [('raise', 'ioerror')],
+        'late-raise': [('empty',)] * 3 + [('raise', 'serial')],
+        'late-raise-oserror': [('empty',)] * RETRY_STATEMENT + [('raise', 'oserror')],
         'late-wrong': [('empty',)] * RETRY_STATEMENT + [('wrong', DEFAULT_PAY)],
     }
 
@@ -539,9 +599,10 @@ def fault_scenarios(full_cross=False):
                     yield Scenario(State(port=True), [GOOD] * pos + evs + [GOOD] * 12, [], [(name, args)] + followups(k),
                                    f'fault:{kind}@r{pos}')
             for wp in range(nw):
-                k += 1
-                yield Scenario(State(port=True), [GOOD] * 40, ['o'] * wp + ['x'], [(name, args)] + followups(k),
-                               f'fault:write@w{wp}')
+                for ch in 'xpei':
+                    k += 1
+                    yield Scenario(State(port=True), [GOOD] * 40, ['o'] * wp + [ch], [(name, args)] + followups(k),
+                                   f'fault:write-{WRITE_CHARS[ch]}@w{wp}')
             # fault-free run with varied payloads / line ends
             yield Scenario(State(port=True), [GOOD] * 40, [], [(name, args)] + followups(k), 'clean')
 
@@ -554,7 +615,8 @@ def pair_scenarios():
         for b in rm:
             ca = (a, normalise_args(a, ac[a][0]))
             cb = (b, normalise_args(b, ac[b][0]))
-            yield Scenario(State(port=True), [('raise',)] + [GOOD] * 8, [], [ca, cb], 'pair:raise')
+            yield Scenario(State(port=True), [('raise', EXC_KEYS[(len(a) + len(b)) % 4])] + [GOOD] * 8, [], [ca, cb],
+                           'pair:raise')
             yield Scenario(State(port=True), [('err', DEFAULT_PAY)] + [GOOD] * 8, [], [ca, cb], 'pair:err')
 
 
@@ -601,9 +663,11 @@ def request_string_scenarios(rng):
                                [(meth, (pl + req + pr,))], 'reqstring')
                 # I/O exception classes (F10 names included)
         for meth in ('command', 'query'):
-            yield Scenario(State(port=True), [('raise',)], [], [(meth, (req,))], 'reqstring:raise')
-            yield Scenario(State(port=True), [GOOD], ['x'], [(meth, (req,))], 'reqstring:wraise')
-            yield Scenario(State(port=True), [('empty',), ('empty',), ('raise',)], [], [(meth, (req,))], 'reqstring:raise2')
+            for key in EXC_KEYS:
+                yield Scenario(State(port=True), [('raise', key)], [], [(meth, (req,))], 'reqstring:raise')
+                yield Scenario(State(port=True), [GOOD], [WRITE_CHAR_OF[key]], [(meth, (req,))], 'reqstring:wraise')
+                yield Scenario(State(port=True), [('empty',), ('empty',), ('raise', key)], [], [(meth, (req,))],
+                               'reqstring:raise2')
 
 
 def connect_scenarios():
@@ -640,7 +704,7 @@ def random_scenarios(rng, n, maxlen=30):
                    version=rng.choice([None, None, '3.0.2', '2.9.9']), name=rng.choice([None, 'Old']))
         calls = [rand_call(rng) for _ in range(rng.randint(1, maxlen))]
         reads = rand_reads(rng, rng.randint(0, 60), fault_rate=rng.choice([0, 0.02, 0.1, 0.3]))
-        writes = [rng.choice('oooooooooox') for _ in range(rng.randint(0, 12))] if rng.random() < 0.4 else []
+        writes = [rng.choice('oooooooooooooooooxpei') for _ in range(rng.randint(0, 12))] if rng.random() < 0.4 else []
         yield Scenario(st, reads, writes, calls, 'random')
 
 
@@ -810,3 +874,51 @@ def probe_unmodelled(ctx, names):
                             key=f'C04:{name}:message-replaced')
                 if exc and pre == 'noport' and fill == 1:
                     ctx.notes.append(f'unmodelled method {name} raises {exc} on an unconnected object')
+
+
+def escaped_known(r):
+    """reboot()/bootload(): the raw write is guarded by `except (SerialException, PortNotOpenError)` only, so a plain
+    OSError/IOError raised by the port's write() escapes (finding F11, next to F10).  The model (one raise outcome)
+    returns False there; everything else of the call agrees.  Returns True for exactly that case."""
+    if r['call'][0] not in ('reboot', 'bootload') or r['exc'] != 'OSError':
+        return False
+    ws = [e for e in r['events'] if e[0] == 'w']
+    return len(ws) == 1 and not ws[0][2] and ws[0][5] in ('oserror', 'ioerror')
+
+
+def ignore_known(sc, recs, k, r, outs):
+    return {'result'} if escaped_known(r) else set()
+
+
+def probe_connect_exceptions(ctx):
+    """connect()'s handshake catches serial.SerialException only; what a plain OSError from the port does there is
+    C15's subject - observed and logged here, never judged by C04/C05."""
+    seen = []
+    for where, reads, writes in (('read', [('raise', 'oserror')], []), ('write', [], ['e'])):
+        player = Player(reads, writes)
+        player.in_connect = False
+        sc_state = State(port=False)
+        # run connect with the class NOT forced to SerialException
+        from plotink import ebb3_motion, ebb3_serial
+        import serial as real_serial
+
+        class Shim:
+            SerialException = real_serial.SerialException
+            serialutil = real_serial.serialutil
+        shim = Shim()
+        shim.Serial = lambda port_name, timeout=None: FakePort(player, real_serial.SerialException)
+        obj = ebb3_motion.EBBMotionWrap()
+        player.obj = obj
+        saved = (ebb3_serial.serial, ebb3_serial.comports)
+        try:
+            ebb3_serial.serial = shim
+            ebb3_serial.comports = lambda: [('COM3', 'EiBotBoard', 'USB VID:PID=04D8:FD92')]
+            try:
+                ret = obj.connect()
+                seen.append(f'{where}: returned {ret!r}, err {"set" if obj.err else "None"}')
+            except Exception as ex:
+                seen.append(f'{where}: {type(ex).__name__} escapes')
+        finally:
+            ebb3_serial.serial, ebb3_serial.comports = saved
+    ctx.out_of_domain.append({'note': 'connect() handshake with a plain OSError from the port (only SerialException is caught '
+                                      'there; judged by C15, not here)', 'observed': seen})
